@@ -156,11 +156,23 @@ def r_iter_skip_loop(sig, body, arg):
 
 
 def _strip_deref(text, names):
-    """R4b: strip a leading `*` on exactly the given binder names."""
+    """R4b: strip a leading (unary) `*` on exactly the given binder names."""
     n = 0
     for nm in names:
-        text, c = re.subn(r"\*\s*%s\b" % re.escape(nm), nm, text)
-        n += c
+        out = []
+        last = 0
+        for m in re.finditer(r"\*\s*%s\b" % re.escape(nm), text):
+            k = m.start() - 1
+            while k >= 0 and text[k] in " \t\n":
+                k -= 1
+            if k >= 0 and (text[k].isalnum() or text[k] in "_)]"):
+                continue  # binary multiplication
+            out.append(text[last:m.start()])
+            out.append(nm)
+            last = m.end()
+            n += 1
+        out.append(text[last:])
+        text = "".join(out)
     return text, n
 
 
@@ -318,9 +330,22 @@ def r_hoist_chains(sig, body, arg):
             break
         # receiver path
         r0 = it
-        while r0 > 0 and (body[r0 - 1].isalnum() or body[r0 - 1] in "._"):
-            r0 -= 1
-        recv = body[r0:it]
+        while r0 > 0:
+            ch = body[r0 - 1]
+            if ch.isalnum() or ch in "._":
+                r0 -= 1
+            elif ch in " \t\n":
+                # whitespace is part of the path only if a `.` follows it
+                k = r0 - 1
+                while k > 0 and body[k - 1] in " \t\n":
+                    k -= 1
+                if body[r0] == "." and k > 0 and (body[k - 1].isalnum() or body[k - 1] == "_"):
+                    r0 = k
+                else:
+                    break
+            else:
+                break
+        recv = re.sub(r"\s+", "", body[r0:it])
         parsed = _parse_chain(body, it)
         if not recv or parsed is None or not parsed[0]:
             pos = it + 1
